@@ -246,6 +246,10 @@ Definition incrU : Sched.call nat nat nat :=
 Definition progU (i : tid) : list (Sched.call nat nat nat) :=
   match i with 0 | 1 => [incrU] | _ => [] end.
 
+Ltac ufwd R tac :=
+  eapply ReachStep in R; [|tac];
+  cbn [Sched.sh Sched.ths Sched.done] in R.
+
 Example C06_lost_update_without_lock :
   exists cfg,
     reachable nat nat nat (init nat nat nat progU 0) cfg /\
@@ -254,20 +258,19 @@ Example C06_lost_update_without_lock :
     sh nat nat nat cfg = 1 /\
     fst (seq_run nat nat nat 0 (Sched.calls_of nat nat nat (done nat nat nat cfg))) = 2.
 Proof.
-  eexists. split.
-  - eapply ReachStep. 1: eapply ReachStep. 1: eapply ReachStep. 1: eapply ReachStep.
-    1: eapply ReachStep. 1: eapply ReachStep. 1: eapply ReachStep. 1: eapply ReachStep.
-    1: apply ReachRefl.
-    + eapply StNoLock with (i := 0); reflexivity.
-    + eapply StNoLock with (i := 1); reflexivity.
-    + eapply StMicro with (i := 0); reflexivity.
-    + eapply StMicro with (i := 1); reflexivity.
-    + eapply StMicro with (i := 0); reflexivity.
-    + eapply StMicro with (i := 1); reflexivity.
-    + eapply StReturn with (i := 0); reflexivity.
-    + eapply StReturn with (i := 1); reflexivity.
-  - split; [|repeat split].
-    intros j. destruct j as [|[|j]]; cbn; eauto.
+  pose proof (ReachRefl nat nat nat (init nat nat nat progU 0)) as R.
+  unfold Sched.init in R at 2.
+  ufwd R ltac:(eapply StNoLock with (i := 0); reflexivity).
+  ufwd R ltac:(eapply StNoLock with (i := 1); reflexivity).
+  ufwd R ltac:(eapply StMicro with (i := 0); reflexivity).
+  ufwd R ltac:(eapply StMicro with (i := 1); reflexivity).
+  ufwd R ltac:(eapply StMicro with (i := 0); reflexivity).
+  ufwd R ltac:(eapply StMicro with (i := 1); reflexivity).
+  ufwd R ltac:(eapply StReturn with (i := 0); reflexivity).
+  ufwd R ltac:(eapply StReturn with (i := 1); reflexivity).
+  eexists. split; [exact R|].
+  split; [|repeat split].
+  intros j. destruct j as [|[|j]]; cbn; eauto.
 Qed.
 
 (** A schedule of the memory backend: goroutine 0 increments "k" (Lock,
